@@ -15,6 +15,7 @@ import Proofs.GoTieStreamR
 import Proofs.GoTieStreamW
 import Props.C01
 import Props.C12
+import Props.C02
 import Proofs.GoTieStreamNew
 namespace AgeModel
 namespace GoTie
@@ -271,6 +272,35 @@ theorem code_stream_roundtrip {α δ : Type} (A : AEAD) (hA : A.Correct) (hN : A
   simp only [rdErrRel, rdErr] at he
   subst he
   exact ⟨w1, w2, g', hw, hc, by rw [hacc]; exact hsr⟩
+
+/-- an outcome whose Go error is io.EOF is the clean end -/
+theorem rdErrRel_eof (o : Outcome) (h : rdErrRel Go.io_EOF (some o)) : o = .eof := by
+  cases o <;> simp [rdErrRel, rdErr, Go.io_EOF, Go.io_ErrUnexpectedEOF, Go.io_srcErr] at h ⊢
+
+/-- **exactly one payload per plaintext, about the code** (C02): whatever bytes `c` are presented as the payload, if
+    the translated reader — called with any sequence of positive buffer sizes long enough to reach the end — has
+    released `out` and then reports io.EOF, then `c` IS the canonical encryption of `out` under that key: re-split,
+    re-flagged, reordered, truncated, extended or otherwise altered payloads never end cleanly. Needs only the
+    functional laws of the AEAD. -/
+theorem code_accepts_only_own_chunking {α : Type} (A : AEAD) (hA : A.Correct) (k : Bytes) (E : AeadEnv α A k) (a : α)
+    (c : Bytes) (hc : c.length < 2 ^ 88 - 1) (sizes : List Nat) (hpos : ∀ s ∈ sizes, 0 < s)
+    (hlong : (decrypt A 65536 k c).1.length + c.length + 1 < sizes.length) (g' : stream_Reader α) (out : Bytes)
+    (h : streamReads E ⟨a, ⟨c, false⟩, 0, 0, List.replicate 65552 0, none, List.replicate 12 0⟩ sizes = .ok (g', out, Go.io_EOF)) :
+    c = encrypt A 65536 k out := by
+  have hdd : dec A 65536 k false 0 c = decrypt A 65536 k c := rfl
+  obtain ⟨r', hdr⟩ := Props.C12.reader_refines_spec A 65536 (2 ^ 88) (by omega) k c false (by omega) sizes hpos
+    (by rw [hdd]; exact hlong)
+  have hb : (Reader.new ⟨c, false⟩).Bounded (2 ^ 88 - 1) := by
+    unfold Reader.Bounded; simp only [Reader.new]; omega
+  obtain ⟨g'', ge, hsr, he, _⟩ := streamReads_tie A k E sizes _ _ (reader_new_rel a c false) hb
+  rw [hdr] at hsr he
+  rw [h] at hsr
+  simp only [Except.ok.injEq, Prod.mk.injEq] at hsr
+  obtain ⟨_, hout, hge⟩ := hsr
+  rw [← hge] at he
+  have heof := rdErrRel_eof _ he
+  rw [hdd] at hout heof
+  exact Props.C02.accepts_only_own_chunking A hA 65536 (by decide) k c out (by rw [hout, ← heof])
 
 end GoTie
 end AgeModel
